@@ -8,4 +8,5 @@ INVARIANT Thm_LetBeatsWith
 INVARIANT Thm_InnermostWins
 INVARIANT Thm_PlainSetsInvisible
 INVARIANT Thm_Total
+INVARIANT Thm_CallSiteArg
 CHECK_DEADLOCK FALSE
